@@ -344,7 +344,12 @@ def handle (i o : Json) : Except String Reply := do
   -- the behaviour flag probed from the live code decides which variant of the model runs
   let gr : Graph := { c.graph with anyOutput := CylcModel.TrigFlags.anyOutput,
                                    triggerUnpooled := CylcModel.TrigFlags.triggerUnpooled,
-                                   rowInsertMode := CylcModel.TrigFlags.rowInsertMode }
+                                   rowInsertMode := CylcModel.TrigFlags.rowInsertMode,
+                                   qotSkipsPrepped := CylcModel.TrigFlags.qotSkipsPrepped,
+                                   releaseQueueIfReady := CylcModel.TrigFlags.releaseQueueIfReady,
+                                   rmFlushFirst := CylcModel.TrigFlags.rmFlushFirst,
+                                   rmFlushEach := CylcModel.TrigFlags.rmFlushEach,
+                                   rmEraseUnmatched := CylcModel.TrigFlags.rmEraseUnmatched }
   let c := { c with graph := gr }
   let tasksJ := (jField? ((jField? i "graph").getD Json.null) "tasks").getD Json.null
   let seqTasks := c.graph.tasks.filterMap fun t =>
